@@ -35,6 +35,7 @@ def _counted():
     with open("prove_calls", "a") as f: f.write("x")
     return _orig()
 rt.backend.prove = _counted
+%(pre)s
 def term():
     %(action)s
 if %(pos)d == 0: term()
@@ -48,10 +49,11 @@ NCONS_AT = {0: 0, 1: 1, 2: None}        # constraints emitted before the termina
 
 
 def run_one(job):
-    mode, action, coqmode, pos, backend, autoprove = job
+    mode, action, coqmode, pos, backend, autoprove = job[:6]
+    pre = "rt.ignore_errors(True)" if (len(job) > 6 and job[6]) else "pass"
     d = common.scratch("pysnark-verif-exit-")
     try:
-        open(os.path.join(d, "s.py"), "w").write(SCRIPT % dict(autoprove=autoprove, action=action, pos=pos))
+        open(os.path.join(d, "s.py"), "w").write(SCRIPT % dict(autoprove=autoprove, action=action, pos=pos, pre=pre))
         env = common.impl_env({"PYSNARK_BACKEND": backend, "PYSNARK_KEYDIR": None, "PYSNARK_PROOFDIR": None})
         r = subprocess.run([common.PY, "s.py"], cwd=d, env=env, stdout=subprocess.PIPE, stderr=subprocess.PIPE, text=True, timeout=120)
         calls = len(open(os.path.join(d, "prove_calls")).read()) if os.path.exists(os.path.join(d, "prove_calls")) else 0
@@ -81,6 +83,9 @@ def run(tier, seed):
                     pass
                     pass
                     jobs.append((mode, action, coqmode, pos, backend, autoprove))
+                    # the same with the run-time checks switched off by the script (ignore_errors(True)): what counts as a failed
+                    # run does not depend on that mode
+                    if backend == "snarkjs" and pos != 1 and "from pysnark" not in mode: jobs.append((mode + " [ignore_errors on]", action, coqmode, pos, backend, autoprove, True))
     with ThreadPoolExecutor(common.NPROC) as ex:
         results = list(ex.map(run_one, jobs))
     full_ncons = None
@@ -89,8 +94,10 @@ def run(tier, seed):
     stats = collections.Counter()
     rows = []
     for job, res in zip(jobs, results):
-        mode, action, coqmode, pos, backend, autoprove = job
-        case = dict(mode=mode, position=pos, backend=backend, autoprove=autoprove, action=action)
+        mode, action, coqmode, pos, backend, autoprove = job[:6]
+        case_mode = mode
+        mode = mode.replace(" [ignore_errors on]", "")
+        case = dict(mode=case_mode, position=pos, backend=backend, autoprove=autoprove, action=action)
         produced = all(res["artefacts"].values())
         partial = any(res["artefacts"].values()) and not produced
         stats["runs"] += 1
